@@ -67,6 +67,9 @@ def c17_h1(ctx):
             problems.append("the action is %s, not <lookup>.unwrap_or(&FaultHandlerAction::Cancel)" % expr_str(e)[:200])
         else:
             look, dflt = _peel(e[3][0]), _peel(e[3][1])
+            # `.get(k).cloned()` / `.copied()`: the same entry by value
+            while look[0] == "call" and (callee_name(look) or "").endswith(("Option::cloned", "Option::copied")) and len(look[3]) == 1:
+                look = _peel(look[3][0])
             if not (dflt[0] == "agg" and dflt[3] == "Cancel" and dflt[2].endswith("FaultHandlerAction")):
                 problems.append("default action is %s, not FaultHandlerAction::Cancel" % expr_str(dflt))
             if not (look[0] == "call" and (callee_name(look) or "").endswith("HashMap::get") and len(look[3]) == 2):
@@ -371,6 +374,7 @@ def c17_w(ctx):
                     writes.append((ps, cal))
             info[b] = (calls, writes)
         cnt = {}
+        fl = None
         for b, t in f.all_calls():
             d, r, _ = ctx.prog.callee_of(t)
             if not (r or d or "").endswith("Counter::timeout_occurred"):
@@ -417,7 +421,16 @@ def c17_w(ctx):
                     done.add(x)
                 if any(c[0] in ("handle_fault", "abandon", "from_residual") or c[0] in always_fault for c in c0):
                     done.add(x)
-            r2 = f.reachable(true_start, avoid=done)
+            # blocks where every path state says this very timer had NOT expired are not on a path from
+            # the expired branch (joins of an Option-returning helper, shared tails)
+            if fl is None:
+                fl = Flow(ctx.prog, ctx.mods, f, lambda k: k[0] == "call" and k[1].endswith("Counter::timeout_occurred"))
+            dead = set()
+            for x in region:
+                ws = fl.at_term(x)
+                if x != true_start and ws and all(call_key(dict(w), "Counter::timeout_occurred", False, arg_contains="self.timer." + which) for w in ws):
+                    dead.add(x)
+            r2 = f.reachable(true_start, avoid=done | dead)
             if any(f.blocks[x]["term"]["k"] == "return" for x in r2) and true_start not in done:
                 yield bad("C17-W", key, at(f, t["span"]["line"]), "after timer.%s expired (limit not reached) a path returns without %s" % (which, spec[0]))
             else:
